@@ -39,8 +39,12 @@ pub fn generate(g: &mut G, _index: u64) -> Scenario {
         depth.push(depth[p] + 1);
     }
     let keys = [ChildKey::Unit, ChildKey::Msg, ChildKey::Topic1];
-    for _ in 0..nodes {
-        sc.actors.push(ActorSpec { entry: if g.chance(1, 4) { Entry::BuilderSpawn } else { Entry::Spawn }, mailbox: g.mailbox(), stopped_yields: g.below(2) as u32, ..Default::default() });
+    for i in 0..nodes {
+        let mut spec = ActorSpec { entry: if g.chance(1, 4) { Entry::BuilderSpawn } else { Entry::Spawn }, mailbox: g.mailbox(), stopped_yields: g.below(2) as u32, ..Default::default() };
+        if i == 0 && spec.entry == Entry::BuilderSpawn {
+            spec.restart = g.pick(&[Restart::Default, Restart::Recreate]);
+        }
+        sc.actors.push(spec);
     }
     let mut late: Vec<(usize, usize, ChildKey)> = vec![]; // (parent, child, key) added from a handler
     for i in 1..nodes {
@@ -85,10 +89,24 @@ pub fn generate(g: &mut G, _index: u64) -> Scenario {
             }
             2 => {
                 if let Some((_, s)) = child_slots.iter().next() {
-                    ops.push(Op::Send { h: *s, id: g.id(), work: vec![Work::Sleep(g.range(1, 10))] });
+                    if g.chance(1, 3) {
+                        // a child terminates on its own while its parent lives on
+                        ops.push(Op::Stop { h: *s });
+                        ops.push(Op::Yield(g.range(1, 4) as u32));
+                    } else {
+                        ops.push(Op::Send { h: *s, id: g.id(), work: vec![Work::Sleep(g.range(1, 10))] });
+                    }
                 }
             }
-            _ => ops.push(Op::Yield(g.range(1, 3) as u32)),
+            _ => {
+                if g.chance(1, 3) {
+                    // a restart is not a termination: children stay
+                    ops.push(Op::Restart { h: 0 });
+                    ops.push(Op::Ping { h: 0 });
+                } else {
+                    ops.push(Op::Yield(g.range(1, 3) as u32))
+                }
+            }
         }
     }
     // the root terminates
